@@ -5,6 +5,8 @@ use std::collections::VecDeque;
 struct PathHead {
     node: Node,
     parent: Option<Node>,
+    // index of the neighbour of the root through which the path leaves the root
+    branch: Option<usize>,
     path_length: usize,
 }
 
@@ -22,6 +24,9 @@ impl PathHead {
             .map(move |x| PathHead {
                 node: x,
                 parent: Some(self.node),
+                branch: self.branch.or(Some(match x {
+                    Node::Row(n) | Node::Col(n) => n,
+                })),
                 path_length: self.path_length + 1,
             })
     }
@@ -62,6 +67,7 @@ impl BFSContext<'_> {
         to_visit.push_back(PathHead {
             node,
             parent: None,
+            branch: None,
             path_length: 0,
         });
         let mut results = BFSResults {
@@ -89,7 +95,41 @@ impl BFSContext<'_> {
         self.results
     }
 
+    /// Length of the shortest cycle through the root (if not longer than `max`).
     pub fn local_girth(mut self, max: usize) -> Option<usize> {
+        use std::collections::HashMap;
+        // Branch of each of the nodes found so far
+        let mut branches = HashMap::new();
+        while let Some(head) = self.to_visit.pop_front() {
+            for next_head in head.iter(self.h) {
+                let key = match next_head.node {
+                    Node::Row(n) => (false, n),
+                    Node::Col(n) => (true, n),
+                };
+                let next_dist = self.results.get_node_mut(next_head.node);
+                if let Some(dist) = *next_dist {
+                    // Two paths that leave the root through the same
+                    // neighbour do not close a cycle through the root.
+                    if branches.get(&key) != next_head.branch.as_ref() {
+                        let total = dist + next_head.path_length;
+                        return if total <= max { Some(total) } else { None };
+                    }
+                } else {
+                    *next_dist = Some(next_head.path_length);
+                    branches.insert(key, next_head.branch.unwrap());
+                    if next_head.path_length < max {
+                        self.to_visit.push_back(next_head);
+                    }
+                }
+            }
+        }
+        None
+    }
+
+    /// Length of the first closed path found from the root (if not longer than
+    /// `max`). It is not necessarily a cycle through the root, but its minimum
+    /// over all the roots is the girth of the graph.
+    pub fn first_closed_path(mut self, max: usize) -> Option<usize> {
         while let Some(head) = self.to_visit.pop_front() {
             for next_head in head.iter(self.h) {
                 let next_dist = self.results.get_node_mut(next_head.node);
